@@ -582,6 +582,13 @@ class World:
         a = self.pick(step[1])
         return None if a is None else self._read("fingerprint", a, lambda: a.obj.fingerprint())
 
+    def op_fingerprint_table(self, step):
+        a = self.pick(step[1], "table")
+        if a is None:
+            return None
+        si = self._read("fingerprint", a, lambda: a.obj.fingerprint())
+        return si
+
     def op_len_shape(self, step):
         a = self.pick(step[1])
         return None if a is None else self._read("len_shape", a, lambda: (len(a.obj), a.obj.shape))
